@@ -317,7 +317,7 @@ impl<'a> RecordView<'a> {
         let data_len = self.data.len();
         let header_len = self.header_len() as usize;
 
-        if data_len <= header_len {
+        if data_len < header_len {
             return 0;
         }
 
